@@ -57,7 +57,23 @@ def main():
     seen = set()
     t0 = time.time()
     per_check_viol = {}
+    # A change under test can make every call slower and slower (e.g. state that accumulates between calls): the run has a
+    # wall-clock budget, after which generation stops (recorded as `truncated`), and a single case that does not return
+    # within CASE_LIMIT seconds is a checker error (exit != 0), never a silent hang.
+    budget = float(os.environ.get("VERIF_NATIVE_BUDGET", "240" if a.tier == "quick" else "2400"))
+    case_limit = int(os.environ.get("VERIF_NATIVE_CASE_LIMIT", "120"))
+    import signal
+
+    class CaseTimeout(Exception):
+        pass
+
+    def _alarm(signum, frame):
+        raise CaseTimeout()
+    signal.signal(signal.SIGALRM, _alarm)
     for check, spec, nontrivial in mod.generate(a.tier, rng):
+        if time.time() - t0 > budget:
+            out["truncated"] = f"wall-clock budget of {budget:.0f} s reached after {out['evaluations']} evaluations"
+            break
         out["evaluations"] += 1
         sec = out["sections"].setdefault(check, {"evaluations": 0, "distinct_nontrivial": 0, "violations": 0})
         sec["evaluations"] += 1
@@ -70,7 +86,14 @@ def main():
         if len(out["samples"]) < 6 and nontrivial and (out["evaluations"] % 97 == 1 or out["evaluations"] < 3):
             out["samples"].append({"check": check, "input": spec})
         try:
-            v = mod.CHECKS[check](spec)
+            signal.alarm(case_limit)
+            try:
+                v = mod.CHECKS[check](spec)
+            finally:
+                signal.alarm(0)
+        except CaseTimeout:
+            v = {"what": f"the case did not finish within {case_limit} s (the library call hangs or has become pathologically slow)",
+                 "expected": "a result", "observed": "timeout", "finding_key": None}
         except Exception as e:   # an exception inside the oracle is a checker error, not a verdict
             print(traceback.format_exc(), file=sys.stderr)
             raise
